@@ -259,6 +259,33 @@ def run(ctx):
                                       (theta, depth, how, gx[k], gy[k], ex[k], ey[k]), {"F": sub[k]["F"], "D": sub[k]["D"], "E": sub[k]["E"]})
                     else:
                         ctx.replayed(len(sub))
+    # ---- the stats() dispatcher: every keyword dictionary reaches its method, names rename, fmin/fmax equal an explicit split
+    for (F, D), vs in list(groups.items())[:: (3 if ctx.quick else 1)]:
+        if not D or len(D) < 2 or len(F) < 3:
+            continue
+        sub = vs[: (10 if ctx.quick else 100)]
+        batch = L.build_batch(list(F), list(D), [v["E"] for v in sub])
+        req = {"hs": {"tail": False}, "hrms": {"tail": False}, "tp": {"smooth": False}, "uss_x": {"theta": 37.0, "depth": 12.0},
+               "uss_y": {"theta": 200.0}, "tm02": {}, "alpha": {"smooth": False}, "gamma": {"scaled": False, "smooth": False}}
+        names = ["n_%s" % k for k in req]
+        for how, acc in (("DataArray", batch.spec), ("Dataset", batch.to_dataset(name="efth").spec)):
+            ctx.case(("stats-dispatch", how, tuple(F), tuple(D)), True)
+            try:
+                out = acc.stats(req, names=names)
+                probs = [k for k, n in zip(req, names) if not np.allclose(np.asarray(out[n].values, float), np.asarray(getattr(acc, k)(**req[k]).values, float),
+                                                                         rtol=1e-12, atol=0, equal_nan=True)]
+                fmin, fmax = L.freqs(list(F))[0] * 1.02, L.freqs(list(F))[-1] * 0.98
+                a = acc.stats(["hs", "tm01"], fmin=fmin, fmax=fmax)
+                b = batch.spec.split(fmin=fmin, fmax=fmax).spec.stats(["hs", "tm01"])
+                if not all(np.allclose(a[k].values, b[k].values, rtol=1e-12, equal_nan=True) for k in ("hs", "tm01")):
+                    probs.append("fmin/fmax")
+            except Exception as ex:  # noqa
+                probs = ["raised %s: %s" % (type(ex).__name__, str(ex)[:120])]
+            if probs:
+                ctx.violation({"op": "stats", "via": how, "clause": "keyword-forwarded", "which": probs[:3]},
+                              "stats() via %s does not give what the methods give with the same keywords: %s" % (how, probs[:3]), {"F": list(F), "D": list(D)})
+            else:
+                ctx.replayed()
     dispersion(ctx)
     depth_terms(ctx, some)
     ctx.assume("exactness holds on the lattice (frequencies multiples of 0.05 Hz, whole degrees, integer energies); float32 compared at 3e-6")
